@@ -171,3 +171,10 @@ def check(cx):
     from . import c16
     cx.include(c16, {"C16.3b"}, "C12.10", "shared with C16.3b: no narrow counter of unbounded events in the library; data must survive any amount of "
                "cache eviction, and a u16 eviction counter that panics when it wraps makes a small cache fail where a large one works", floor=2)
+
+    # ---- C12.11 / C12.12 (constructs shared with C19.3 and C11.3b) ------------------------------------------------------
+    from . import c19, c11
+    cx.include(c19, {"C19.3"}, "C12.11", "shared with C19.3: the key comparator sees whole keys; how much of a cell stays in the leaf depends on page "
+               "size and min_keys, so a comparator that truncates spilled keys makes results depend on the configuration", floor=6)
+    cx.include(c11, {"C11.3b"}, "C12.12", "shared with C11.3b: dealloc_page does not rely on a frame staying resident across calls that can evict; "
+               "with a small cache the frame is gone and the page is freed unconverted, with a large cache it works", floor=1)
